@@ -231,3 +231,34 @@ func abs(x int) int {
 	}
 	return x
 }
+
+// ---- formula families shared by several properties
+
+// FormulaSmall: n in 1..10 with all the odd clause shapes.
+func FormulaSmall(t *rapid.T) (int, [][]int) {
+	return SmallCNF(t, CNFOpts{MinN: 1, MaxN: 10, MaxRatio: 5, MaxLen: 5, AllowEmpty: true, AllowDup: true, AllowUnit: true, UnusedVarSlack: true})
+}
+
+// FormulaHardSmall: parity systems / pigeonhole formulas over <= 20 variables that need many conflicts.
+func FormulaHardSmall(t *rapid.T) (n int, cls [][]int, family string) {
+	switch rapid.IntRange(0, 2).Draw(t, "family") {
+	case 0:
+		n = Uniform(t, 14, 20, "n")
+		cls = XorCNF(t, n, Uniform(t, n-2, n+6, "m"))
+		family = "xor"
+	default:
+		n, cls = Pigeonhole(t, rapid.SampledFrom([]int{3, 4, 4, 4}).Draw(t, "holes"), Chance(t, 1, 4, "drop"))
+		family = "php"
+	}
+	for i, k := 0, rapid.IntRange(0, 3).Draw(t, "extra"); i < k; i++ {
+		cls = append(cls, DistinctLits(t, n, 3, "e"))
+	}
+	return
+}
+
+// FormulaThreshold: uniform 3-SAT near the satisfiability threshold.
+func FormulaThreshold(t *rapid.T, minN, maxN int) (int, [][]int) {
+	n := Uniform(t, minN, maxN, "n")
+	ratio := Uniform(t, 400, 460, "ratio")
+	return n, KSAT(t, n, n*ratio/100, 3)
+}
